@@ -688,6 +688,20 @@ func (c *specCtx) callExpr(x *ast.CallExpr) (tv, error) {
 		}
 		dom, _ := vc.keyMap(mt)
 		return tv{Term{fmt.Sprintf("(select (select %s %s) %s)", vc.cur(c.st, dom), m.S, k.S), SBool}, boolT}, nil
+	case "iface":
+		// iface(e): the interface value holding e (dynamic type = static Go type of e)
+		a, err := c.tr(args[0])
+		if err != nil {
+			return tv{}, err
+		}
+		if a.ty == nil {
+			return tv{}, fmt.Errorf("iface() needs a Go-typed value")
+		}
+		if types.IsInterface(a.ty) {
+			return a, nil
+		}
+		tag := vc.typeTag(a.ty)
+		return tv{Term{fmt.Sprintf("(mkif_%s %s %s)", a.Sort.Suffix(), tag, a.S), SV}, nil}, nil
 	case "isfresh":
 		// the object was allocated after the reference state (old): call entry / function entry
 		a, err := c.tr(args[0])
